@@ -50,6 +50,20 @@ DecompModule(w, enz) ==
           THEN [ok |-> TRUE, up |-> Sticky(w, enz, a), down |-> Sticky(w, enz, b),
                 tgt |-> Between(w, a, b), cutA |-> a, cutB |-> b]
           ELSE [ok |-> FALSE]
+\* A module plasmid whose BACKBONE was never domesticated:  s x o5 t o3 y rc(s) b  where b holds further forward sites.
+\* Read from the origin, the first forward site opens the structure, the single reverse site closes it, and every other
+\* site lies behind it - the stretch from site to site is a module in the sense above and that is what a class reports.
+DecompModuleFirst(w, enz) ==
+  LET F == FwdSites(w, enz)  R == RevSites(w, enz) IN
+  IF F = {} \/ Cardinality(R) # 1 THEN [ok |-> FALSE]
+  ELSE LET p == Min(F)
+           q == CHOOSE q \in R : TRUE
+           a == p + Len(enz.site) + enz.off
+           b == q - enz.off - enz.ovh
+       IN IF /\ a <= b /\ q + Len(enz.site) <= Len(w)                 \* no wrap: the structure lies between the origin and its end
+             /\ \A f \in F \ {p} : f >= q + Len(enz.site)              \* every other site is behind the structure
+          THEN [ok |-> TRUE, up |-> Sticky(w, enz, a), down |-> Sticky(w, enz, b), tgt |-> Between(w, a, b), cutA |-> a, cutB |-> b]
+          ELSE [ok |-> FALSE]
 \* A vector is  o3 y rc(s) p s x o5 b : the reverse site comes first; what is kept
 \* runs from the forward cut (upstream overhang o5 included) round to the reverse cut.
 DecompVector(w, enz) ==
